@@ -548,6 +548,25 @@ impl Check for C04 {
                 }
             }
         });
+        // many subpaths in one path
+        run.bound("many subpaths", "100 and 300 short open / closed subpaths tiled over 36x36 in one path x 3 caps x 2 joins".to_string());
+        run.par(2 * 3 * 2, |s, l| {
+            let n = [100usize, 300][s / 6];
+            let cap = ((s / 2) % 3) as u8;
+            let join = [1u8, 0][s % 2];
+            let mut ops = Vec::new();
+            for i in 0..n {
+                let (cx, cy) = (2.0 + (i % 10) as f32 * 3.4, 2.0 + ((i / 10) % 10) as f32 * 3.4 + (i / 100) as f32 * 0.9);
+                ops.push(POp::M(cx, cy));
+                ops.push(POp::L(cx + 2.0, cy + 0.5));
+                ops.push(POp::L(cx + 0.5, cy + 1.5));
+                if i % 2 == 0 {
+                    ops.push(POp::Z);
+                }
+            }
+            let st = StyleSpec { width: 0.6, cap, join, miter: 4.0, dash: vec![], offset: 0. };
+            account(run, 9500 + s, l, &PathSpec::new(ops), &st, &IDENT, false);
+        });
         // degenerate widths paint nothing
         run.bound("degenerate widths", "widths 0, -0, -1, -MIN_POSITIVE, NaN, -inf x 16^2 segments x 3 caps".to_string());
         run.par(g.len(), |s, l| {
